@@ -1,7 +1,7 @@
 """C16 Recipe lifecycle discipline is enforced.
 Deciding step: a reference automaton over the abstract recipe state (declared names, names used by a step,
 open stage, stage names, locked) steps in lock-step with the real Recipe along ALL call sequences up to a
-bound over a 28-symbol alphabet (plus long random sequences); accept/raise pattern (RuntimeError after a
+bound over a 31-symbol alphabet (plus long random sequences); accept/raise pattern (RuntimeError after a
 successful bake), len(steps), result key set, and the stability of results and tracking answers under every
 refused call after bake are compared."""
 from __future__ import annotations
@@ -13,8 +13,8 @@ LEVEL = 'exploration'
 DECIDING = ['LIFE.call']
 MIN_EVAL = {'quick': 500000, 'thorough': 10000000}
 MIN_MONITOR = {'LIFE.bake_ok': 2000, 'LIFE.after_bake_call': 2000, 'LIFE.battery': 500}
-RULE = ('ALL sequences of recipe API calls up to length 4 (quick) / 5 (thorough) over an alphabet of 28 symbols on two '
-        'containers, one plate and one never-declared container (uses new/duplicate, create_container new/duplicate, '
+RULE = ('ALL sequences of recipe API calls up to length 4 (quick) / 5 (thorough) over an alphabet of 31 symbols on two '
+        'containers, one plate and one never-declared container (uses new/duplicate, uses with a list / tuple argument incl. two same-named objects in one list, create_container new/duplicate, '
         'create_solution with pure/declared/undeclared solvent, create_solution_from declared/undeclared, transfer legal / '
         'undeclared source / undeclared destination, remove / dilute / fill_to declared/undeclared, start_stage '
         'new/duplicate/"all", end_stage right/wrong, bake), plus random sequences of length 6-14; a sequence stops at the '
@@ -24,7 +24,7 @@ ASSUMPTIONS = BASE_ASSUMPTIONS + [
     'bake is three-valued in the automaton once a step may be physically infeasible (after create_container/create_solution '
     'under the name A or remove on A); otherwise the alphabet is feasible in every reachable order (100 mL stock, <= 1 mL amounts)',
     'after a successful bake: declaring and step-adding calls must raise RuntimeError; start_stage / end_stage / bake must raise']
-SYMS = ['usesA', 'usesB', 'usesP', 'usesA2', 'ccN', 'ccA', 'csM', 'csA', 'csSolvA', 'csSolvX', 'csfA', 'csfX', 'tAB', 'tAP', 'tXA',
+SYMS = ['usesA', 'usesB', 'usesP', 'usesA2', 'usesL_BP', 'usesL_dup', 'usesT_A', 'ccN', 'ccA', 'csM', 'csA', 'csSolvA', 'csSolvX', 'csfA', 'csfX', 'tAB', 'tAP', 'tXA',
         'tAX', 'rmA', 'rmX', 'dilA', 'dilX', 'fillB', 'fillX', 'st1', 'st2', 'stall', 'en1', 'en2', 'bake']
 DECLARING = {'usesA': 'A', 'usesB': 'B', 'usesP': 'P', 'usesA2': 'A', 'ccN': 'N', 'ccA': 'A', 'csM': 'M', 'csA': 'A', 'csSolvA': 'SA',
              'csSolvX': 'SX', 'csfA': 'FA', 'csfX': 'FX'}
@@ -33,7 +33,7 @@ NEED = {'tAB': ['A', 'B'], 'tAP': ['A', 'P'], 'tXA': ['X', 'A'], 'tAX': ['A', 'X
 
 
 def required_buckets(tier):
-    req = [f'C16/sym/{s}/ok' for s in SYMS if s not in ('usesA2', 'csSolvX', 'csfX', 'tXA', 'tAX', 'rmX', 'dilX', 'fillX', 'stall')]
+    req = [f'C16/sym/{s}/ok' for s in SYMS if s not in ('usesA2', 'usesL_dup', 'csSolvX', 'csfX', 'tXA', 'tAX', 'rmX', 'dilX', 'fillX', 'stall')]
     req += [f'C16/sym/{s}/refused' for s in SYMS if s not in ()]
     req += [f'C16/after_bake/{s}' for s in SYMS]
     return req
@@ -74,6 +74,7 @@ class Model:
         self.maybe_infeasible = False
         self.diluted = False
         self.filled = False
+        self.partial = False
 
     def key(self):
         return (frozenset(self.decl), frozenset(self.used), self.open, frozenset(self.stages), self.locked)
@@ -102,6 +103,15 @@ class Model:
             return 'ok'
         if self.locked:
             return 'runtime'
+        if sym in ('usesL_BP', 'usesL_dup', 'usesT_A'):
+            names = {'usesL_BP': ['B', 'P'], 'usesL_dup': ['D', 'D'], 'usesT_A': ['A']}[sym]
+            clash = [n for n in names if n in self.decl] or (['D'] if sym == 'usesL_dup' else [])
+            if clash:
+                # refused; how many of the earlier elements were already added is not specified
+                self.partial = any(n not in self.decl for n in names)
+                return 'raise'
+            self.decl.update(names)
+            return 'ok'
         if sym in DECLARING:
             nm = DECLARING[sym]
             if sym in ('csSolvA', 'csfA') and 'A' not in self.decl:
@@ -144,12 +154,19 @@ class Model:
 def fresh(pp, water, salt):
     C, P = pp.Container, pp.Plate
     return {'A': C('A', initial_contents=[(water, '100 mL'), (salt, '5 g')]), 'B': C('B'), 'P': P('P', '1 mL', rows=1, columns=2),
-            'X': C('X', initial_contents=[(water, '10 mL')])}
+            'X': C('X', initial_contents=[(water, '10 mL')]),
+            'D1': C('D', initial_contents=[(water, '1 mL')]), 'D2': C('D', initial_contents=[(water, '2 mL')])}
 
 
 def do(r, o, sym, water, salt):
     A, B, P, X = o['A'], o['B'], o['P'], o['X']
-    if sym in ('usesA', 'usesA2'):
+    if sym == 'usesL_BP':
+        r.uses([B, P])
+    elif sym == 'usesL_dup':
+        r.uses([o['D1'], o['D2']])
+    elif sym == 'usesT_A':
+        r.uses((A,))
+    elif sym in ('usesA', 'usesA2'):
         r.uses(A)
     elif sym == 'usesB':
         r.uses(B)
@@ -270,6 +287,8 @@ def run_sequence(pp, water, salt, seq, M, stats, states, transitions, check_batt
                 return
             if exp == 'bake?':
                 return            # a physically infeasible program: stop here (not modelled further)
+            if m.partial:
+                return            # uses(iterable) refused part-way: which elements were already declared is unspecified
             if sym == 'bake' and not was_locked and m.open is not None:
                 return            # whether a refused bake has already closed the open stage is not specified
             if was_locked and check_battery and res is not None:
@@ -369,6 +388,6 @@ def finalize(m, tier):
             seqs += e.get('sequences') or 0
     return {'coverage': {'states': len(states), 'transitions': trans, 'sequences': seqs,
                          'exhaustive': m['watchdog'] == 0 and not m['errors'],
-                         'exhaustive_over': f'all call sequences of length {4 if tier == "quick" else 5} over the 28-symbol alphabet '
+                         'exhaustive_over': f'all call sequences of length {4 if tier == "quick" else 5} over the 31-symbol alphabet '
                                             '(shorter ones are their prefixes); random sequences of length 6-14 are sampled',
                          'transitions_note': 'distinct (automaton state, symbol) pairs, summed over shards'}}
